@@ -89,7 +89,21 @@ func hookTokens(text string) string {
 				}
 			}
 		}
-		out = append(out, t.Type.String()+"~"+hx(t.Text)+"~"+payload)
+		if t.Type == lexer.ItemBlankNode {
+			payload = "bad"
+			if n, err := node.Parse(t.Text); err == nil {
+				payload = encNode(n)
+			}
+		}
+		tok := t.Type.String() + "~" + hx(t.Text) + "~" + payload
+		if t.Type == lexer.ItemPredicate {
+			// in object position of a data triple or a template: triple.ParseObject
+			tok += "~bad"
+			if o, err := triple.ParseObject(t.Text, literal.DefaultBuilder()); err == nil {
+				tok = strings.TrimSuffix(tok, "bad") + encObj(o)
+			}
+		}
+		out = append(out, tok)
 	}
 	if len(out) == 0 {
 		return "-"
